@@ -7,6 +7,7 @@ Known findings exercised (tags):
 """
 import math
 import os
+import random
 import tempfile
 from fractions import Fraction as F
 
@@ -301,14 +302,15 @@ def gen_overshoot(rng):
     return dict(kind="setter", st=st, cands=[cand], via="setter")
 
 
-def gen_aligned(rng, exact, scale=None, ints=False):
+def gen_aligned(rng, exact, scale=None, ints=False, cls=None):
     st = gen_state(rng, exact, nsubs=0, scale=scale, ints=ints)
     nd = len(st["n"])
     lo, hi = bounds(st)
     cq = cellq(st)
-    cls = rng.choice(["same", "whole", "whole", "half", "quarter", "below-tol", "above-tol", "cell-differs",
-                      "cell-slightly"])
-    if not exact and float(min(cq)) <= 1e-11 and rng.random() < 0.5:
+    forced = cls is not None
+    cls = cls or rng.choice(["same", "whole", "whole", "half", "quarter", "below-tol", "above-tol", "cell-differs",
+                             "cell-slightly"])
+    if not forced and not exact and float(min(cq)) <= 1e-11 and rng.random() < 0.5:
         cls = rng.choice(["half", "quarter", "cell-differs"])
     n2 = [rng.randint(1, 6) for _ in range(nd)]
     lo2, hi2 = [], []
@@ -463,7 +465,15 @@ def gen_sel_plane(rng, st, exact):
 
 
 def generate(rng, tier):
-    nm = 24 if tier == "quick" else 240
+    """first the seed-independent directed core (identical in every run, tier and seed), then the
+    seeded random streams"""
+    cases = directed_core()
+    if os.environ.get("VERIF_C14_CORE_ONLY"):
+        return cases
+    return cases + random_streams(rng, 14 if tier == "quick" else 200)
+
+
+def random_streams(rng, nm):
     cases = []
     for k in range(nm * 5):
         cases.append(gen_aligned(rng, exact=(k % 2 == 0), ints=(k % 6 == 0)))
@@ -535,7 +545,239 @@ def generate(rng, tier):
     for k in range(nm * 3):
         st = gen_state(rng, True, nsubs=rng.choice([1, 2, 3]), ints=(k % 4 == 0))
         cases.append(gen_alias(rng, st, ["same-twice", "dict-reuse", "caller-mutates"][k % 3]))
-    # directed, oracle-only: item assignment into the dictionary handed out by the getter
+    # copying step (whole turns, zero translation, unit scale, ordinary steps), then an in-place step on
+    # the result: the original must not notice
+    for k in range(nm * 2):
+        st = gen_state(rng, True, nd=rng.choice([2, 3, 3]) if k % 3 else None, nsubs=rng.choice([1, 2]),
+                       ints=(k % 4 == 0))
+        cases.append(gen_chain(rng, st, identity=(k % 3 != 2)))
+    return cases
+
+
+def op_translate(v):
+    return dict(op="translate", v=[S(x) for x in v])
+
+
+def op_scale(f, nd, ref=None, scalar=True, refspell="list"):
+    return dict(op="scale", f=[S(f)] * nd, scalar=scalar, ref=None if ref is None else [S(x) for x in ref],
+                refspell=refspell)
+
+
+def op_rot(a, b, k, ref=None, refspell="list"):
+    return dict(op="rotate", a=a, b=b, k=k, ref=None if ref is None else [S(x) for x in ref], refspell=refspell)
+
+
+def valid_step(rng, st):
+    nd = len(st["n"])
+    cq = cellq(st)
+    kind = rng.choice(["translate", "scale", "rotate"] if nd > 1 else ["translate", "scale"])
+    if kind == "translate":
+        v = [rng.randint(-3, 3) * c_ for c_ in cq]
+        if all(x == 0 for x in v):
+            v[0] = cq[0]
+        return op_translate(v)
+    if kind == "scale":
+        return op_scale(rng.choice([F(2), F(1, 2), F(3), F(-1), F(3, 2)]), nd)
+    a = rng.randrange(nd)
+    b = (a + 1 + rng.randrange(nd - 1)) % nd
+    return op_rot(a, b, rng.choice([1, 2, 3, -1, 5]))
+
+
+def gen_chain(rng, st, identity=True):
+    nd = len(st["n"])
+    if identity:
+        opts = ["zero-translate", "unit-scale"] + (["whole-turn"] * 3 if nd > 1 else [])
+        w = rng.choice(opts)
+        if w == "whole-turn":
+            a = rng.randrange(nd)
+            b = (a + 1 + rng.randrange(nd - 1)) % nd
+            op1 = op_rot(a, b, rng.choice([0, 4, 8, -4]))
+        elif w == "zero-translate":
+            op1 = op_translate([0] * nd)
+        else:
+            op1 = op_scale(F(1), nd)
+    else:
+        op1 = valid_step(rng, st)
+    return dict(kind="chain", st=st, op1=op1, op2=valid_step(rng, st))
+
+
+def hand_state(p1, p2, n, subs=None, exact=True, ints=False, mixed=False, dims=None, units=None, corners=None):
+    """a hand-written state; subs: name -> per-axis [j1, j2] face indices (corners: name -> literal
+    (pmin, pmax) overriding the computed faces)"""
+    nd = len(n)
+    st = dict(exact=exact, p1=[S(x) for x in p1], p2=[S(x) for x in p2], n=list(n),
+              tf=S(F(1, 2 ** 36) if exact else DEFAULT_TF), dims=list(dims or ["x", "y", "z", "t"][:nd]),
+              units=list(units or ["m"] * nd), subs=[], sub_idx={}, ints=ints, ctype="list", mixed=mixed)
+    for name, box in (subs or {}).items():
+        st["sub_idx"][name] = [list(b) for b in box]
+        if corners and name in corners:
+            lo_, hi_ = corners[name]
+        else:
+            lo_ = [face(st, a, b[0]) for a, b in enumerate(box)]
+            hi_ = [face(st, a, b[1]) for a, b in enumerate(box)]
+        st["subs"].append([name, [S(x) for x in lo_], [S(x) for x in hi_]])
+    return st
+
+
+def until(make, pred, limit=400):
+    for _ in range(limit):
+        c = make()
+        if pred(c):
+            return c
+    return c
+
+
+def directed_core():
+    """seed-independent directed cases: one small group per mechanism a seeded change (rounds a-e,
+    /verif/seeded/C14-*) or a finding went through.  Built by hand or from a FIXED generator, so the
+    list is identical in every run, tier and seed."""
+    r = random.Random(424242)
+    cases = []
+    cand = lambda name, lo, hi, cls: [name, [S(x) for x in lo], [S(x) for x in hi], S(DEFAULT_TF), cls]
+
+    # a1 - a rejected assignment keeps the previous dictionary (valid entries before the offending one)
+    for i in range(6):
+        st = gen_state(r, True, nsubs=r.choice([1, 2]), ints=(i % 3 == 0))
+        names = r.sample(NAMES, 3)
+        classes = [["aligned", "shift-half"], ["aligned", "aligned", "oversized"], ["whole-region", "fractional"],
+                   ["aligned", "tiny"], ["aligned", "shift-above-tol", "aligned"], ["aligned", "shift-quarter"]][i]
+        cases.append(dict(kind="setter", st=st, via="setter",
+                          cands=[gen_candidate(r, st, names[j], cl) for j, cl in enumerate(classes)]))
+    # e2 - misaligned candidates just above the absolute tolerance, and far from the origin of a long chain
+    for i in range(4):
+        st = gen_state(r, True, nsubs=r.choice([0, 1]))
+        cases.append(dict(kind="setter", st=st, via=["setter", "ctor"][i % 2] if not st["subs"] else "setter",
+                          cands=[gen_candidate(r, st, "k9", "shift-above-tol")]))
+    long1 = hand_state([0], [50000], [50000])
+    cases.append(dict(kind="setter", st=long1, via="setter",
+                      cands=[cand("far", [F(400004, 10)], [F(400104, 10)], "shift-far-0.4")]))
+    cases.append(dict(kind="setter", st=long1, via="ctor",
+                      cands=[cand("far", [F(49000) + F(1, 4)], [F(49020) + F(1, 4)], "shift-far-quarter")]))
+    cases.append(dict(kind="setter", st=long1, via="setter",
+                      cands=[cand("ok", [F(49000)], [F(49020)], "aligned")]))
+    strip = hand_state([0, 0], [40000, 2], [40000, 2])
+    cases.append(dict(kind="setter", st=strip, via="setter",
+                      cands=[cand("far", [F(399004, 10), 0], [F(399104, 10), 2], "shift-far-0.4")]))
+    # c2 - only the upper corner is off the lattice (candidates and second meshes)
+    for i in range(4):
+        cases.append(gen_overshoot(r))
+    for i in range(4):
+        cases.append(gen_aligned(r, True, cls="cell-slightly"))
+    # a2 - integer-typed corners, half-integer lattice, range selections whose clipped face is fractional
+    a2 = hand_state([0, 0], [4, 2], [8, 2], subs={"a": [[0, 6], [0, 2]], "Zz": [[6, 8], [0, 2]]}, ints=True)
+    for x1, x2, i1, i2 in [(F(5, 4), F(9, 4), 2, 4), (F(7, 4), F(9, 4), 3, 4), (F(3, 4), F(13, 4), 1, 6),
+                           (F(1, 4), F(5, 4), 0, 2)]:
+        cases.append(dict(kind="sel-range", st=a2, a=0, x1=S(x1), x2=S(x2), i1=i1, i2=i2,
+                          xtype=["float", "np64"], seq="tuple"))
+    for i in range(6):
+        st = until(lambda: gen_state(r, True, nsubs=2, ints=True),
+                   lambda s_: not s_["mixed"] and any(c_.denominator == 2 for c_ in cellq(s_)))
+        cases.append(gen_sel_range(r, st, True))
+        cases.append(gen_sel_plane(r, st, True))
+    # d3 - range selections that end exactly on a subregion face in non-representable coordinates
+    for hi_, n_, j, x1, x2, i1, i2 in [(0.9, 3, 1, 0.45, 0.75, 1, 2), (0.7, 2, 1, 0.5, 0.6, 1, 1),
+                                        (2.1, 3, 1, 1.05, 1.75, 1, 2), (0.7, 4, 3, 0.0875, 0.4375, 0, 2)]:
+        cell_ = hi_ / n_
+        st = hand_state([0.0], [hi_], [n_], subs={"a": [[0, j]], "b": [[j, n_]]}, exact=False)
+        cases.append(dict(kind="sel-range", st=st, a=0, x1=S(x1), x2=S(x2), i1=i1, i2=i2,
+                          xtype=["float", "float"], seq="tuple"))
+    for i in range(10):
+        st = gen_state(r, False, nsubs=2, scale=r.choice([1e-9, 1e-6, 1e-3, 1.0]))
+        cases.append(until(lambda: gen_sel_range(r, st, False),
+                           lambda c_: any(b[c_["a"]][1] == c_["i1"] or b[c_["a"]][0] == c_["i2"] + 1
+                                          for b in st["sub_idx"].values()), limit=60))
+    # b1 - mesh[name] where edges / cell is not exact in binary floating point
+    b1a = hand_state([0.0], [1.0], [10], subs={"mid": [[3, 7]]}, exact=False, corners={"mid": ([0.3], [0.7])})
+    b1b = hand_state([0.0, 0.0], [10e-9, 1e-9], [10, 1], subs={"mid": [[3, 7], [0, 1]]}, exact=False,
+                     corners={"mid": ([3e-9, 0.0], [7e-9, 1e-9])})
+    b1c = hand_state([0.0], [0.9], [9], subs={"a1": [[0, 3]], "_u": [[3, 9]]}, exact=False,
+                     corners={"a1": ([0.0], [0.3]), "_u": ([0.3], [0.9])})
+    for st in (b1a, b1b, b1c):
+        for nm_ in st["sub_idx"]:
+            cases.append(dict(kind="named", st=st, name=nm_))
+    for i in range(4):
+        st = gen_state(r, i % 2 == 0, nsubs=2)
+        cases.append(dict(kind="named", st=st, name=st["subs"][i % 2][0]))
+    # a3 / d2 - HDF5: names in non-alphabetical order; integer-typed mesh with half-integer subregion corners
+    h5a = hand_state([0, 0, 0], [6, 2, 2], [12, 4, 4], ints=True, mixed=True,
+                     subs={"zeta": [[1, 5], [0, 4], [0, 4]], "alpha": [[5, 12], [1, 3], [0, 2]], "Beta": [[0, 2], [0, 1], [3, 4]]})
+    h5b = hand_state([F(-3, 2), 0], [F(5, 2), 3], [8, 3], subs={"omega": [[0, 3], [0, 3]], "b": [[3, 8], [1, 2]], "a1": [[2, 6], [0, 1]]},
+                     dims=["a", "b"], units=["nm", "s"])
+    for st in (h5a, h5b):
+        cases.append(dict(kind="persist-h5", st=st))
+    for st, ext in ((h5a, "h5"), (h5a, "hdf5"), (h5a, "omf"), (h5a, "vtk")):
+        cases.append(dict(kind="files", st=st, ext=ext, rep="bin8"))
+    for i in range(4):
+        st = gen_state(r, True, nsubs=3, ints=True)
+        st["mixed"] = True
+        st["subs"], st["sub_idx"] = [], {}
+        for _ in range(3):
+            add_sub(r, st)
+        cases.append(dict(kind="persist-h5", st=st))
+    # b3 - the side-car reader goes through the setter: foreign / stale side-cars, targets with subregions,
+    #      files of meshes with custom dimension names
+    for i, mode in enumerate(["shifted-half", "other", "same-prev", "same", "shifted-half", "other", "same-prev", "bigger"]):
+        st = gen_state(r, True, nsubs=r.choice([1, 2]), ints=(i == 3))
+        cases.append(dict(kind="persist-json", st=st, dst=gen_dst(r, st, mode), mode=mode))
+    f3 = hand_state([0, 0, 0], [4, 3, 2], [4, 3, 2], dims=["r", "s", "u"],
+                    subs={"zeta": [[0, 2], [0, 3], [0, 2]], "alpha": [[2, 4], [1, 2], [0, 1]]})
+    for ext, rep_ in (("omf", "bin8"), ("ovf", "txt"), ("ohf", "bin8"), ("vtk", "bin8"), ("vtk", "txt")):
+        cases.append(dict(kind="files", st=f3, ext=ext, rep=rep_))
+    # d1 - files of one stem with different extensions keep their own side-car
+    f3b = dict(f3)
+    f3b["subs"], f3b["sub_idx"] = [], {}
+    f3b = hand_state([0, 0, 0], [4, 3, 2], [4, 3, 2], dims=["r", "s", "u"], subs={"k9": [[1, 3], [0, 1], [1, 2]]})
+    f3c = hand_state([0, 0, 0], [4, 3, 2], [4, 3, 2], dims=["r", "s", "u"])
+    for s1, s2, pair in ((f3, f3b, ["omf", "vtk"]), (f3b, f3, ["vtk", "omf"]), (f3, f3b, ["ovf", "ohf"]),
+                         (f3, f3c, ["omf", "vtk"]), (f3c, f3, ["ohf", "omf"]), (f3, f3b, ["h5", "omf"])):
+        cases.append(dict(kind="file-siblings", st=s1, st2=s2, exts=pair))
+    # b2 - aliasing
+    for i in range(9):
+        st = gen_state(r, True, nsubs=r.choice([1, 2]), ints=(i % 4 == 0))
+        c_ = gen_alias(r, st, ["same-twice", "dict-reuse", "caller-mutates"][i % 3])
+        c_["carry"], c_["inplace"] = True, i % 2 == 0
+        cases.append(c_)
+    # c1 - scaling about reference points that are falsy / full of zeros, every spelling, both forms
+    c1 = hand_state([F(1)], [F(9)], [8], subs={"a": [[1, 4]], "Zz": [[4, 8]]})
+    c1i = hand_state([2], [10], [16], subs={"mid": [[2, 8]]}, ints=True)
+    for st in (c1, c1i):
+        for sp in ("scalar", "npscalar", "list", "array"):
+            for ip in (False, True):
+                cases.append(dict(kind="transform", st=st, inplace=ip, **op_scale(F(2), 1, ref=[0], refspell=sp)))
+    c1m = hand_state([1, -2, 0], [5, 2, 3], [4, 4, 3], subs={"a": [[0, 2], [1, 4], [0, 3]]})
+    for sp in ("list", "tuple", "array"):
+        for ip in (False, True):
+            cases.append(dict(kind="transform", st=c1m, inplace=ip,
+                              **op_scale(F(3, 2), 3, ref=[0, 0, 0], scalar=False, refspell=sp)))
+            cases.append(dict(kind="transform", st=c1m, inplace=ip,
+                              **op_scale(F(1, 2), 3, ref=[0, F(1, 2), 0], refspell=sp)))
+    # c3 / e1 - in-place quarter turns of a mesh with subregions: every count, cells that differ along the
+    #           two rotated axes (the cell is read before the turn)
+    e1 = hand_state([0, 0, 0], [4, 8, 3], [4, 4, 3], subs={"a": [[0, 2], [1, 3], [0, 3]], "Zz": [[2, 4], [0, 4], [1, 2]]},
+                    units=["nm", "s", "A"])
+    for k_ in (1, 2, 3, 6, -1, 5):
+        for ip in (True, False):
+            cases.append(dict(kind="transform", st=e1, inplace=ip, **op_rot(0, 1, k_)))
+    for k_ in (1, 2, 3):
+        cases.append(dict(kind="transform", st=e1, inplace=True, **op_rot(2, 0, k_, ref=[1, 0, F(1, 2)])))
+    e1b = hand_state([F(-1), F(1, 2)], [F(2), F(5, 2)], [6, 2], subs={"k9": [[1, 4], [0, 1]]})
+    for k_ in (1, 2, 3, 4):
+        cases.append(dict(kind="transform", st=e1b, inplace=True, **op_rot(0, 1, k_)))
+    # e3 - whole turns (and other steps that change nothing) in the copying form, then an in-place step on
+    #      the result
+    for k_ in (0, 4, 8, -4):
+        for op2 in (op_translate([1, 2, 0]), op_scale(F(2), 3), op_rot(0, 2, 1)):
+            cases.append(dict(kind="chain", st=e1, op1=op_rot(0, 1, k_), op2=op2))
+    cases.append(dict(kind="chain", st=e1, op1=op_translate([0, 0, 0]), op2=op_translate([1, 0, 0])))
+    cases.append(dict(kind="chain", st=e1, op1=op_scale(F(1), 3), op2=op_scale(F(1, 2), 3)))
+    for i in range(4):
+        st = gen_state(r, True, nd=r.choice([2, 3]), nsubs=2, ints=(i == 0))
+        cases.append(gen_chain(r, st, identity=True))
+    # known findings: the picometre half-cell shift (C14-abs-tolerance) and item assignment into the
+    # dictionary handed out by the getter (C14-getter-dict-mutable)
+    pm = hand_state([0.0], [10e-12], [10], exact=False)
+    cases.append(dict(kind="aligned", st=pm, q1=[S(0.5e-12)], q2=[S(10.5e-12)], n2=[10], tol=S(ALIGN_TOL), cls="half"))
+    cases.append(dict(kind="setter", st=pm, via="setter", cands=[cand("a", [0.5e-12], [3.5e-12], "shift-half")]))
     cases.append(dict(kind="getter-dict",
                       st=dict(exact=True, p1=[S(0), S(0)], p2=[S(10), S(10)], n=[10, 10], tf=S(DEFAULT_TF),
                               dims=["x", "y"], units=["m", "m"], subs=[], sub_idx={}, ints=False, ctype="list"),
@@ -783,6 +1025,9 @@ def run_case(c):
                               math.floor(math.log10(float(min(c1))))), size=size)
         return rec
 
+    if kind == "chain":
+        return run_chain(c, rec, size)
+
     if kind in ("files", "file-siblings"):
         return run_files(c, rec, size)
 
@@ -888,21 +1133,16 @@ def run_case(c):
         inplace = c["inplace"]
         ex = exact
 
-        def call():
-            ref = spell_ref(c, st)
-            if c["op"] == "translate":
-                return mesh.translate(nums(c["v"], st), inplace=inplace)
-            if c["op"] == "scale":
-                f = nums(c["f"], st)
-                return mesh.scale(f[0] if c["scalar"] else f, reference_point=ref, inplace=inplace)
-            names = list(st["dims"]) + ["nope"]
-            return mesh.rotate90(names[c["a"]], names[c["b"]], k=c["k"], reference_point=ref, inplace=inplace)
-        st_, res = attempt(call)
+        _ = attempt(lambda: mesh.cell)          # the cell is read before the step (a cached value would go stale)
+        st_, res = attempt(lambda: apply_op(mesh, c, st, inplace))
         obs = snap_mesh(res) if st_ == "ok" else None
         if st_ == "ok":
             if inplace and res is not mesh:
                 rec["oracle"].append("inplace-returned-other-object")
+            if not inplace and (res.region is mesh.region or shares(res.region, mesh.region)):
+                rec["oracle"].append("copy-shares-region-with-original")
             rec["oracle"] += invariant_violations(obs)
+            rec["oracle"] += post_checks(res, exact)
             if sorted(x[0] for x in obs["subs"]) != sorted(x[0] for x in held):
                 rec["oracle"].append("subregion-names-changed")
             # independent rational transformation of every box
@@ -1158,6 +1398,84 @@ def run_files(c, rec, size):
     rec.update(obs=dict(files=obs), key=key_of(c["kind"], c.get("ext") or "+".join(c["exts"]), nd, c["st"].get("ints"),
                                                c["st"].get("mixed"), len(c["st"]["subs"]),
                                                len(c.get("st2", {}).get("subs", []))), size=size)
+    return rec
+
+
+def apply_op(mesh, c, st, inplace):
+    ref = spell_ref(c, st)
+    if c["op"] == "translate":
+        return mesh.translate(nums(c["v"], st), inplace=inplace)
+    if c["op"] == "scale":
+        f = nums(c["f"], st)
+        return mesh.scale(f[0] if c["scalar"] else f, reference_point=ref, inplace=inplace)
+    names = list(st["dims"]) + ["nope"]
+    return mesh.rotate90(names[c["a"]], names[c["b"]], k=c["k"], reference_point=ref, inplace=inplace)
+
+
+def post_checks(mesh, exact):
+    """what a mesh must still do with the subregions it holds: its cell is edges / n, it accepts its own
+    subregions again, mesh[name] is the subregion with the parent's cell and is aligned with the parent.
+    Only claimed where rounding cannot reach the absolute 1e-12 test."""
+    out = []
+    mo = snap_mesh(mesh)
+    lo, hi = Fs(mo["pmin"]), Fs(mo["pmax"])
+    cq = [(h - l) / k for l, h, k in zip(lo, hi, mo["n"])]
+    st_c, cell = attempt(lambda: [F(float(x)) for x in mesh.cell])
+    if st_c != "ok" or len(cell) != len(cq) or any(abs(x - y) > y / 10 ** 9 for x, y in zip(cell, cq)):
+        out.append("cell-is-not-edges-over-n")
+    quiet = exact or max(abs(x) for x in lo + hi) * F(1, 2 ** 49) <= ALIGN_TOL / 4
+    if not quiet:
+        return out
+    for name, smin, smax, _, _ in mo["subs"]:
+        st_n, sub = attempt(lambda: mesh[name])
+        if st_n != "ok":
+            out.append("named-extraction-rejected")
+            continue
+        so = snap_mesh(sub)
+        if Fs(so["pmin"]) != Fs(smin) or Fs(so["pmax"]) != Fs(smax):
+            out.append("named-extraction-region")
+        sc = [(F(h) - F(l)) / k for l, h, k in zip(so["pmin"], so["pmax"], so["n"])]
+        if any(abs(x - y) > y / 10 ** 9 for x, y in zip(sc, cq)):
+            out.append("named-extraction-cell")
+        st_a, al = attempt(lambda: bool(mesh.is_aligned(sub)))
+        if st_a != "ok" or not al:
+            out.append("named-extraction-not-aligned")
+    st_s, _ = attempt(lambda: setattr(mesh, "subregions", dict(mesh.subregions)))
+    if st_s != "ok":
+        out.append("mesh-refuses-its-own-subregions")
+    elif name_map(snap_subs(mesh)) != name_map(mo["subs"]):
+        out.append("reassigning-own-subregions-changed-them")
+    return out
+
+
+def run_chain(c, rec, size):
+    """copying step, then an in-place step on the RESULT; the ORIGINAL must not notice"""
+    st = c["st"]
+    oracle = []
+    mesh = build(st)
+    before = snap_mesh(mesh)
+    st1, res = attempt(lambda: apply_op(mesh, c["op1"], st, False))
+    if st1 != "ok":
+        oracle.append("valid-transformation-rejected")
+        rec["oracle"] = oracle
+        rec.update(obs=dict(status=res), key=key_of("chain", "rejected"), size=size)
+        return rec
+    if res is mesh or res.region is mesh.region or shares(res.region, mesh.region):
+        oracle.append("copy-shares-region-with-original")
+    if any(shares(res.subregions[x], mesh.subregions[x]) for x in mesh.subregions if x in res.subregions):
+        oracle.append("stored-subregion-is-not-the-meshs-own")
+    st2, _ = attempt(lambda: apply_op(res, c["op2"], st, True))
+    after = snap_mesh(mesh)
+    if (Fs(after["pmin"]), Fs(after["pmax"]), after["n"], name_map(after["subs"])) != \
+            (Fs(before["pmin"]), Fs(before["pmax"]), before["n"], name_map(before["subs"])):
+        oracle.append("original-changed-through-its-copy")
+    oracle += invariant_violations(after)
+    oracle += post_checks(mesh, True)
+    if st2 == "ok":
+        oracle += invariant_violations(snap_mesh(res))
+    rec["oracle"] = sorted(set(oracle))
+    rec.update(obs=dict(status=st2, original=after), key=key_of("chain", c["op1"]["op"], c["op1"].get("k"),
+                                                                c["op2"]["op"], len(st["n"]), st2), size=size)
     return rec
 
 
